@@ -3,12 +3,15 @@ Proof: lean/Props/C18.lean (session invariant over the proxy heap model; cache-k
 `patch_session_for_shared_dap_cache`).  Tie: (a) the same traced histories as C14, run on plain / CachedSession(memory)
 / CachedSession + consolidated keys sessions: the model's log (session, request) vs the URLs handed to the session;
 (b) custom_create_key vs the model on generated URL pairs (props/c18_cachekey.py); (c) real CachedSession histories vs
-the caching-session model: hit/miss, returned body, wire (props/c18_cachehist.py).
+the caching-session model: hit/miss, returned body, wire (props/c18_cachehist.py); (d) the REAL `consolidate_metadata` on a
+real CachedSession against an in-process multi-file DAP4 server: GETs, outcome, keys afterwards and read-history trace vs
+the model of lean/PydapModel/Consolidate.lean; reads through the consolidated session vs plain session vs the files' own
+values (props/c18_consolidate.py).
 Oracle: a transport adapter mounted on the session is the only way to the server, name resolution disabled (a request
 through any other session fails in milliseconds and the read raises); every proxy carries the dataset's session;
 reads on the cached sessions equal the reads on the plain session; key collisions judged directly."""
 import common
-from props import c18_cachehist, c18_cachekey
+from props import c18_cachehist, c18_cachekey, c18_consolidate
 from props import clientsim as cs
 
 LEVEL = "proof"
@@ -42,6 +45,7 @@ def explore(ctx, tier, search=False):
     ctx.correspond("session of every GET (model log vs URLs handed to the session)", cases)
     c18_cachekey.explore(ctx, "thorough" if search else tier)
     c18_cachehist.explore(ctx, "thorough" if search else tier)
+    c18_consolidate.explore(ctx, "thorough" if search else tier)
 
 
 def run(ctx):
@@ -51,7 +55,11 @@ def run(ctx):
                 "of / outside the common base, Earthdata collections, constraints inside/outside the shared set, quoting, "
                 "parameter order), non-trivial when at least one of the two gets a normalised key; plus URL histories (2..12 GETs "
                 "with repeats over pools mixing the same classes) on real CachedSession(memory) sessions, unpatched and with "
-                "consolidated keys, non-trivial when at least one GET is answered from the cache")
+                "consolidated keys, non-trivial when at least one GET is answered from the cache; plus collections of 0..5 DAP4 files "
+                "(root dimensions of sizes 0, 1, 2, 3+, dimension arrays equal across files or not, dimensions missing in / only in "
+                "later files, groups, query strings, sibling directories, no common directory, the early exits) given to the real "
+                "consolidate_metadata, with read histories of 2..14 reads (whole variables, element 0, other elements, slices, "
+                "dimension arrays, from several files), non-trivial when consolidate_metadata issued at least one GET")
     ctx.assumptions = ["requests / requests_cache (dispatch, storage, expiry) are modelled, not verified; the unpatched "
                        "create_key is assumed injective on URLs and disjoint from normalised key texts",
                        "EXPLICIT (hypothesis of C18_cache_transparent_customKey): the server answers a declared shared-"
@@ -71,6 +79,8 @@ def replay(payload):
     c = f["case"]
     if "history" in c:
         return c18_cachehist.replay_case(c)
+    if "collection" in c:
+        return c18_consolidate.replay_case(c)
     if "ops" not in c:
         return c18_cachekey.replay_case(c)
     ctx = common.Ctx("C18", "quick", 0)
